@@ -2,8 +2,8 @@
    Only statements, closed by [exact], with Print Assumptions beneath each.
    Arithmetic: the models are evaluated under an [fpmode]; the theorems are about [exact] (no rounding),
    the correspondence check runs [ieee] against the implementation bit for bit (DESIGN.md 3.2). *)
-From BT Require Import Base.Util Base.Float Model.RTree Model.BBIFile Model.BigWigWrite Model.BedSweep Spec.Depth
-  Proofs.DepthStats Proofs.SweepRLE Proofs.BedSummary Proofs.BwSummary Proofs.BwCollect.
+From BT Require Import Base.Util Base.Float Model.RTree Model.BBIFile Model.BigWigWrite Model.BedSweep Spec.Depth Model.EntryBedSweep Proofs.BedFile
+  Proofs.DepthStats Proofs.SweepRLE Proofs.BedSummary Proofs.BedIeee Proofs.BwSummary Proofs.BwCollect.
 Local Open Scope N_scope.
 
 (* ---- bigWig ----
@@ -69,6 +69,28 @@ Theorem C06_bb_item_count : forall U c chroms,
 Proof. intros U c chroms H. exact (proj1 (bb_total_summary_spec U c chroms H)). Qed.
 Print Assumptions C06_bb_item_count.
 
+(* File level: for an accepted input the summary the file-level model reports is bb_total_summary over the
+   chromosome runs of the input; the runs concatenate to the input, each passed the writer's checks
+   (so C06_bb_summary applies to them) and the item count is the number of input entries. *)
+Theorem C06_bb_file_summary : forall U two_pass o sizes input sum levels cs,
+  U <= U32_MAX -> Forall (fun it => e_end (snd it) <= U) input ->
+  bb_file exact two_pass o sizes input = Ok (sum, levels, cs) ->
+  let chroms := map bc_es cs in
+  concat chroms = map snd input /\ chroms <> [] /\ Forall (valid_chrom U) chroms /\
+  sum = bb_total_summary exact chroms /\ su_items sum = Nlen input.
+Proof. exact bb_file_summary. Qed.
+Print Assumptions C06_bb_file_summary.
+
+(* The IEEE-754 instance of the model (binary64, round to nearest even: the instance that is compared
+   bit for bit with the implementation on every run) computes exactly what the exact instance computes
+   as long as the sum of squared depths of the file stays below 2^53; with C06_bb_summary: the summary
+   the IEEE model writes IS the per-base statistics of the depth. *)
+Theorem C06_bb_summary_ieee : forall U c chroms,
+  Forall (valid_chrom U) (c :: chroms) -> sumN (map (c_sumsq U) (c :: chroms)) < P53 ->
+  bb_total_summary ieee (c :: chroms) = bb_total_summary exact (c :: chroms).
+Proof. exact bb_total_summary_ieee. Qed.
+Print Assumptions C06_bb_summary_ieee.
+
 (* ---- non-vacuity ---- *)
 Definition ent (s e : N) : entry := {| e_start := s; e_end := e; e_rest := [] |}.
 (* chromosome 1: partly overlapping, nested, identical and zero-length entries (the witnesses of the
@@ -84,6 +106,9 @@ Proof.
   - reflexivity.
   - vm_compute. repeat split.
 Qed.
+Example C06_example_bb_ieee :
+  sumN (map (c_sumsq 30) [ex_c1; ex_c2]) < P53 /\ bb_total_summary ieee [ex_c1; ex_c2] = bb_total_summary exact [ex_c1; ex_c2].
+Proof. split; vm_compute; reflexivity. Qed.
 (* the depth by hand: [0,5) 2, [5,10) 3, [10,15) 1, [20,22) 1 -> 17 bases, sum 32, sumsq 72 (the sweep also emits the empty segment [5,5) with phantom depth 4, which is ignored) *)
 Example C06_example_bb_spec :
   (sumN (map (c_cov 30) [ex_c1; ex_c2]), sumN (map (c_sum 30) [ex_c1; ex_c2]), sumN (map (c_sumsq 30) [ex_c1; ex_c2])) = (17, 32, 72).
